@@ -394,6 +394,12 @@ def call_numpy(it, tail, args, kwargs, env, node, chain):
     if tail == "indices" and len(t) >= 1:
         return op("indices", t[0])
     if tail == "angle":
+        # np.angle(a + 1j*b) with a, b free of the imaginary unit is arctan2(b, a)
+        z = sp.expand(t[0])
+        b_ = z.coeff(sp.I)
+        a_ = z - sp.I * b_
+        if b_ != 0 and not a_.has(sp.I) and not b_.has(sp.I) and kw(kwargs, "deg") in (None, False):
+            return sp.atan2(b_, a_)
         return op("angle", t[0])
     if tail == "linalg.norm":
         return op("norm", t[0])
@@ -436,6 +442,9 @@ def _tuple_value(v):
 
 
 def call_xarray(it, tail, args, kwargs, env, node, chain):
+    if tail == "apply_ufunc" and args:
+        # xarray.apply_ufunc(f, *arrays): f applied to the arrays (labels are aligned and carried along; the values are f's)
+        return it.call(args[0], list(args[1:]), {}, env, node)
     from .interp import DatasetVal
 
     if tail == "DataArray":
